@@ -954,8 +954,15 @@ namespace
                 const int  k      = static_cast<int>(l.geti("g", 0));
                 const bool keyed  = l.geti("key", 0) != 0;
                 auto       d      = env.dports.at(std::stol(sp.ins.at(0)));
-                const bool bcast  = sp.ins.size() > 1;
+                const bool two_d  = l.geti("dicts", 1) == 2;   // second input is a second multiplexed dictionary
+                const bool bcast  = sp.ins.size() > 1 && !two_d;
                 Port<void> mapped = [&]() -> Port<void> {
+                    if (two_d)
+                    {
+                        auto d2 = env.dports.at(std::stol(sp.ins.at(1)));
+                        if (keyed) { return dispatch_slot<SubGK2>(k, [&]<typename G>() { return Port<void>{wire<stdlib::map_>(w, fn<G>(), d, d2)}; }); }
+                        return dispatch_slot<SubG2>(k, [&]<typename G>() { return Port<void>{wire<stdlib::map_>(w, fn<G>(), d, d2)}; });
+                    }
                     if (!keyed && !bcast) { return dispatch_slot<SubG1>(k, [&]<typename G>() { return Port<void>{wire<stdlib::map_>(w, fn<G>(), d)}; }); }
                     if (!keyed && bcast) { return dispatch_slot<SubG2>(k, [&]<typename G>() { return Port<void>{wire<stdlib::map_>(w, fn<G>(), d, resolve(env, sp.ins.at(1)))}; }); }
                     if (keyed && !bcast) { return dispatch_slot<SubGK1>(k, [&]<typename G>() { return Port<void>{wire<stdlib::map_>(w, fn<G>(), d)}; }); }
